@@ -212,4 +212,38 @@ Definition blackbody (ws : list K) (temp : K) (wn vn : uname) : result spectrum 
   | _, _ => Err ValueError
   end).
 
+(* Blackbody.sample(wave, waveunit) of an object made by the constructor: planck_radiance at the requested
+   wavelengths, in the requested wave unit and the object's CURRENT value unit *)
+Definition bb_sample (s : spectrum) (temp : K) (pts : list K) (wn : uname) : result (list K) :=
+  match s_vu s with
+  | Some g => radiances pts temp wn (fname g)
+  | None => Err AttributeErr          (* None.lower() *)
+  end.
+
+(* Blackbody.vegamag / Blackbody.sample_vegamag.  The band's table entry is (w0 metres, jy Jansky);
+   [pw] is 10**(-0.4*mag) (the power function is external).
+   E = E0 * (M/M0) * 10**(-0.4*mag) with (E0, wave0) = vegaflux(band, waveunit, valueunit),
+   M0 = planck_exitance(wave0, ...), M = planck_exitance(wave, ...) *)
+Fixpoint exitances (ws : list K) (temp : K) (wn vn : uname) : result (list K) :=
+  match ws with
+  | [] => Ok []
+  | w :: r => rbind (planck_exitance w temp wn vn) (fun v =>
+              rbind (exitances r temp wn vn) (fun vs => Ok (v :: vs)))
+  end.
+Definition vega_irradiance (w0 jy pw temp : K) (ws : list K) (wn vn : uname) : result (list K) :=
+  rbind (vegaflux w0 jy wn vn) (fun p =>
+  rbind (planck_exitance (snd p) temp wn vn) (fun M0 =>
+  rbind (exitances ws temp wn vn) (fun Ms =>
+  Ok (map (fun M => fst p * (M / M0) * pw)%F Ms)))).
+(* the classmethod: the irradiance, then cls(wave, temp, waveunit, valueunit) with its values replaced *)
+Definition vegamag (w0 jy pw temp : K) (ws : list K) (wn vn : uname) : result spectrum :=
+  rbind (vega_irradiance w0 jy pw temp ws wn vn) (fun E =>
+  rbind (blackbody ws temp wn vn) (fun s => Ok (mkSpec (s_wave s) E (s_wu s) (s_vu s)))).
+(* star.sample(wave, waveunit): sample_vegamag with the object's current value unit *)
+Definition star_sample (s : spectrum) (w0 jy pw temp : K) (pts : list K) (wn : uname) : result (list K) :=
+  match s_vu s with
+  | Some g => vega_irradiance w0 jy pw temp pts wn (fname g)
+  | None => Err AttributeErr
+  end.
+
 End Units.
